@@ -508,3 +508,9 @@ class _LocalOp:
 
 def _mk_local_op(l):
     return _LocalOp(l)
+
+
+def thorough_extra(rep, verif, repo):
+    """documentation cross-reference of the current tree (positive mismatches only)"""
+    from .. import docscan
+    return docscan.scan_format(rep, verif, repo)
